@@ -14,14 +14,14 @@ import (
 )
 
 type SolveResult struct {
-	Verdict string // unsat | sat | unknown | timeout | error | trivial
-	Backend string
-	Ms      int64
-	Model   string
-	File    string
-	Output  string
-	Part    int
-	All     map[string]string // backend -> verdict (thorough)
+	Verdict  string // unsat | sat | unknown | timeout | error | trivial
+	Backend  string
+	Ms       int64
+	Model    string
+	File     string
+	Output   string
+	Part     int
+	All      map[string]string // backend -> verdict (thorough)
 	Disagree bool
 }
 
